@@ -120,6 +120,16 @@ func (s *subsetter) SubsetCMap(c cmap.Subtable) cmap.Subtable {
 			res[key] = newGid
 		}
 		return res
+	case *cmap.Format0:
+		res := &cmap.Format0{}
+		for code, oldGid := range c.Data {
+			newGid, ok := s.newGid[glyph.ID(oldGid)]
+			if !ok || oldGid == 0 || newGid > 255 {
+				continue
+			}
+			res.Data[code] = byte(newGid)
+		}
+		return res
 	default:
 		panic(fmt.Sprintf("sfnt: unsupported cmap format %T", c))
 	}
